@@ -30,6 +30,7 @@ func init() {
 		{"C10", "bufviews", props.BufViews},
 		{"C02", "bufviews", props.BufViews},
 		{"C13", "msb", props.C13msb},
+		{"C14", "seencontract", props.C14seenContract},
 		{"C05", "native", props.C05native},
 		{"C12", "signdiff", props.C12signDiff},
 		{"C12", "operands", props.C12usesOperands},
